@@ -240,7 +240,7 @@ BinOp(op, a, b, S) ==     \* both operands evaluated; <<value, S'>>
                    ELSE LET r == NDiv(na, nb) IN <<r, IF IsOOM(r) THEN OomS(S) ELSE S>>
     [] op = "//" -> IF nb.q = 0 THEN <<OOM, OomS(S)>>
                     ELSE LET r == NFloorDiv(na, nb) IN <<r, IF IsOOM(r) THEN OomS(S) ELSE S>>
-    [] op = "%" -> IF Trunc(nb.q) = 0 THEN <<OOM, OomS(S)>>
+    [] op = "%" -> IF Trunc(nb.q) = 0 THEN <<ErrV, Fail(S)>>        \* the operands are truncated to integers; modulo by zero is an error (in Twig too)
                    ELSE <<NMod(na, nb), S>>
     [] op = "**" -> LET r == NPow(na, nb) IN <<r, IF IsOOM(r) THEN OomS(S) ELSE S>>
     [] op = "<"  -> <<Bool(na.q < nb.q), S>>
